@@ -440,4 +440,12 @@ def step (st : DSt) (toks : List String) : DSt × String :=
   | ["resetstats"] => (st.withStats Stats.zero, "ok")
   | _ => (st, "bad-op")
 
-def main : IO Unit := runDriver ({} : DSt) step
+/-- `inner <fold line>`: a fold a re-entrant user callback made on the instance it was running for, while the fold of
+    the line before was in progress.  Every counter update of the outer call commutes with it and a fold's report does
+    not depend on the counters (`foldXH_counters_irrelevant`), so it is the fold of the next line. -/
+def stepTop (st : DSt) (toks : List String) : DSt × String :=
+  match toks with
+  | "inner" :: rest => step st rest
+  | _ => step st toks
+
+def main : IO Unit := runDriver ({} : DSt) stepTop
